@@ -15,6 +15,27 @@ use crate::report::{self, Check, Tier};
 use crate::runner::{hash128, Action, Cfg, History, Oracles, Runner};
 
 pub const GOLDEN_SIZES: [u64; 4] = [1024, 4096, 5000, 16384];
+/// (file stem, page size, history kind): kind 1 leaves a free list that needs more than one page
+pub const GOLDENS: [(&str, u64, u8); 5] = [("p1024", 1024, 0), ("p4096", 4096, 0), ("p5000", 5000, 0), ("p16384", 16384, 0), ("p1024-bigfree", 1024, 1)];
+
+/// History of the `bigfree` golden: a three-level tree of 330 entries, most of them deleted again,
+/// so that the persisted free list is longer than one page.
+pub fn golden_history_bigfree(p: u64) -> Vec<Action> {
+    let third = format!("w*{}", p * 3 / 10);
+    let mut c1 = vec![OpSpec::bucket("create", &[], "a"), OpSpec::bucket("create", &["a"], "b"), OpSpec::bucket("create", &["a", "b"], "c")];
+    for i in 0..330 {
+        c1.push(OpSpec::put(&["a"], &format!("f{:03}", i), &third));
+    }
+    c1.push(OpSpec::put(&["a", "b", "c"], "deep-small", "v*16"));
+    // delete from the back in slices, keeping every 11th key, over several commits
+    let mut acts = vec![tx(c1)];
+    for part in 0..4 {
+        let ops: Vec<OpSpec> = (0..330).rev().filter(|i| i % 11 != 0 && i % 4 == part).map(|i| OpSpec::del(&["a"], &format!("f{:03}", i))).collect();
+        acts.push(tx(ops));
+    }
+    acts.push(tx(vec![OpSpec::put(&["a", "b"], "b00", &third), OpSpec::put(&["a"], "a02", &third)]));
+    acts
+}
 
 fn tx(ops: Vec<OpSpec>) -> Action {
     Action::Tx { ops, commit: true }
@@ -117,10 +138,16 @@ pub fn generate() -> i32 {
     let scratch = report::scratch_dir();
     let dir = golden_dir();
     std::fs::create_dir_all(&dir).unwrap();
-    for &p in &GOLDEN_SIZES {
+    let only = std::env::var("GOLDEN_ONLY").ok();
+    for &(stem, p, kind) in &GOLDENS {
+        if let Some(o) = &only {
+            if o != stem {
+                continue;
+            }
+        }
         let path = format!("{}/gen.db", scratch);
         let cfg = Cfg { pagesize: p, num_pages: 32, ..Cfg::default() };
-        let acts = golden_history(p);
+        let acts = if kind == 1 { golden_history_bigfree(p) } else { golden_history(p) };
         let mut r = Runner::new(&path, cfg.clone()).expect("create");
         let or = Oracles { rets: true, dump_after: true, fileck: true, dbcheck: true, ..Oracles::NONE };
         for a in &acts {
@@ -138,16 +165,20 @@ pub fn generate() -> i32 {
         assert!(rep.ok(), "golden not well-formed: {:?}", rep.errors);
         assert!(rep.contents.same_contents(&model));
         assert!(!rep.free.is_empty(), "golden must have a non-empty free list");
-        gz_write(&format!("{}/p{}.db.rle", dir, p), &bytes[..hw]).unwrap();
+        if kind == 1 {
+            assert!(rep.free.len() > 124, "bigfree golden has only {} free-list entries", rep.free.len());
+        }
+        gz_write(&format!("{}/{}.db.rle", dir, stem), &bytes[..hw]).unwrap();
         let meta = json!({"pagesize": p, "file_len": bytes.len(), "high_water": hw, "commits": acts.len(), "tx_id": rep.tx_id, "free_list_entries": rep.free.len(), "tree_shape_levels_leaves_branches": [rep.shape.0, rep.shape.1, rep.shape.2], "contents_hash": format!("{:032x}", hash128(model.render().as_bytes())), "history": acts.iter().map(|a| a.to_json()).collect::<Vec<_>>()});
-        std::fs::write(format!("{}/p{}.json", dir, p), serde_json::to_string_pretty(&meta).unwrap()).unwrap();
-        println!("golden p{}: {} bytes below the high-water mark, tx {}, {} free-list entries, shape {:?}", p, hw, rep.tx_id, rep.free.len(), rep.shape);
+        std::fs::write(format!("{}/{}.json", dir, stem), serde_json::to_string_pretty(&meta).unwrap()).unwrap();
+        println!("golden {} (p{}): {} bytes below the high-water mark, tx {}, {} free-list entries, shape {:?}", stem, p, hw, rep.tx_id, rep.free.len(), rep.shape);
     }
     report::cleanup_scratch(&scratch);
     0
 }
 
 pub struct Golden {
+    pub stem: String,
     pub pagesize: u64,
     pub bytes: Vec<u8>,
     pub file_len: u64,
@@ -158,15 +189,15 @@ pub struct Golden {
 pub fn load_goldens() -> Result<Vec<Golden>, String> {
     let dir = golden_dir();
     let mut out = vec![];
-    for &p in &GOLDEN_SIZES {
-        let meta: Value = serde_json::from_str(&std::fs::read_to_string(format!("{}/p{}.json", dir, p)).map_err(|e| format!("golden p{}: {}", p, e))?).map_err(|e| e.to_string())?;
-        let bytes = gz_read(&format!("{}/p{}.db.rle", dir, p)).map_err(|e| format!("golden p{}: {}", p, e))?;
+    for &(stem, p, _kind) in &GOLDENS {
+        let meta: Value = serde_json::from_str(&std::fs::read_to_string(format!("{}/{}.json", dir, stem)).map_err(|e| format!("golden {}: {}", stem, e))?).map_err(|e| e.to_string())?;
+        let bytes = gz_read(&format!("{}/{}.db.rle", dir, stem)).map_err(|e| format!("golden {}: {}", stem, e))?;
         let acts: Vec<Action> = meta["history"].as_array().ok_or("history")?.iter().map(Action::from_json).collect();
         let model = model_of(&acts);
         if format!("{:032x}", hash128(model.render().as_bytes())) != meta["contents_hash"].as_str().unwrap_or("") {
             return Err(format!("golden p{}: the recorded history no longer produces the recorded contents", p));
         }
-        out.push(Golden { pagesize: p, bytes, file_len: meta["file_len"].as_u64().unwrap_or(0), model, tx_id: meta["tx_id"].as_u64().unwrap_or(0) });
+        out.push(Golden { stem: stem.to_string(), pagesize: p, bytes, file_len: meta["file_len"].as_u64().unwrap_or(0), model, tx_id: meta["tx_id"].as_u64().unwrap_or(0) });
     }
     Ok(out)
 }
@@ -208,7 +239,7 @@ fn check_golden(check: &mut Check, g: &Golden, variant: &str, bytes: &[u8], expe
     let mut r = match Runner::adopt(path, cfg.clone(), expect.clone()) {
         Ok(r) => r,
         Err(e) => {
-            check.violation("golden_open_failed", &format!("[golden p{} {}] {}", g.pagesize, variant, e), || json!({"engine": "compatx", "golden": g.pagesize, "variant": variant}));
+            check.violation("golden_open_failed", &format!("[golden {} {}] {}", g.stem, variant, e), || json!({"engine": "compatx", "golden": g.pagesize, "variant": variant}));
             return;
         }
     };
